@@ -221,6 +221,11 @@ macro_rules! affine {
             for e in 0..RC { arr2[e] = <$S as Sc>::of(arr[(e * 3 + 1) % RC].f() * other_scale.signum().max(-1.0) + (e % 2) as f64); }
             let b = <$T>::from_cols_array(&arr2);
             let ab = m * b;
+            // the assign form is the same product
+            let mut asg = m;
+            asg *= b;
+            acc.eval(true, 77);
+            if !bits_eq(&asg.to_cols_array(), &ab.to_cols_array()) { acc.fail(&format!("{tn}::mul_assign"), format!("A *= B differs from A * B: A={:?} B={:?} got={:?} want={:?}", arr, arr2, asg.to_cols_array(), ab.to_cols_array())); }
             let l = affine!(@tp $R, ab, <$P as Flat>::build(&pv));
             let inner = affine!(@tp $R, b, <$P as Flat>::build(&pv));
             let r = affine!(@tp $R, m, <$P as Flat>::build(&inner));
@@ -268,6 +273,30 @@ macro_rules! mat_laws {
             if !(0..N).all(|i| l[i].f() == r[i].f()) { acc.fail(&format!("{tn}::mul_mat"), format!("(AB)v != A(Bv): A={:?} B={:?} v={:?} got={:?} want={:?}", arr, arr2, v, l, r)); }
         });
     }};
+}
+
+/// Mat3 and Mat3A each multiply both 3-vector types: the two forms must agree bit-for-bit
+fn alternate_vector_forms(rep: &mut Report) {
+    rep.sweep("Mat3,Mat3A/products with the other 3-vector type/integer grid", 125 * 256, |idx, acc| {
+        let k = (idx / 125) as usize;
+        let mut q = idx % 125;
+        let mut arr = [0.0f32; 9];
+        for e in 0..9 { arr[e] = (((k * 7 + e * 5 + (k >> 3) * e) % 7) as f32) - 3.0; }
+        let g = [-2.0f32, -1.0, 0.0, 1.0, 2.0];
+        let mut v = [0.0f32; 3];
+        for i in 0..3 { v[i] = g[(q % 5) as usize]; q /= 5; }
+        let (m, ma) = (Mat3::from_cols_array(&arr), Mat3A::from_cols_array(&arr));
+        let (v3, v3a) = (Vec3::from_array(v), <Vec3A as Flat>::build(&v));
+        let want = (m * v3).to_array();
+        acc.eval(v.iter().any(|x| *x != 0.0), idx);
+        let forms: [(&str, [f32; 3]); 7] = [
+            ("Mat3::mul_vec3a", m.mul_vec3a(v3a).to_array()), ("Mat3 * Vec3A", (m * v3a).to_array()), ("Mat3::mul_vec3", m.mul_vec3(v3).to_array()),
+            ("Mat3A::mul_vec3", ma.mul_vec3(v3).to_array()), ("Mat3A * Vec3", (ma * v3).to_array()), ("Mat3A::mul_vec3a", ma.mul_vec3a(v3a).to_array()), ("Mat3A * Vec3A", (ma * v3a).to_array()),
+        ];
+        for (site, got) in forms {
+            if got != want { acc.fail(site, format!("M={:?} v={:?} got={:?} want={:?}", arr, v, got, want)); }
+        }
+    });
 }
 
 fn minors(rep: &mut Report) {
@@ -397,6 +426,7 @@ fn main() {
     mat_laws!(rep, DMat4, f64, 4, DVec4);
     minors(&mut rep);
     mixed(&mut rep);
+    alternate_vector_forms(&mut rep);
     if rep.thorough() {
         f32_all_roundtrip(&mut rep);
     }
